@@ -205,6 +205,6 @@ Definition names_ok_shipped_x (lines : list string) (tt : list EngineSM.row) (st
                               (sigs : list (string * (string * string))) (a : list (string * string)) : bool :=
   match shipped16 dict0 lines with
   | Some (_, t) => let e := with_user a (with_evsigs sigs (elements_of (table_of tt) structs protos msgs)) in
-                   texts_ok07 (strip t) && dyn_ok07 (strip t) && names_ok_x e && user_lines_plain e (strip t)
+                   texts_ok07 (strip t) && dyn_ok07 (strip t) && names_ok_x (strip t) e && user_lines_plain e (strip t)
   | None => false
   end.
